@@ -29,6 +29,10 @@ CHECKS = {
    technique="TLA+ decision model of transport selection / negotiation / GET guard / status (Http.tla) exhaustively checked by TLC; every enumerated request replayed against the real handler.Server",
    text="Http.tla models one request through one handler.Server (SelectTransport, ParseUrl, Negotiate, Decode, CreateOpCtx, GuardGET, Dispatch, Write) at implementation level and states the property independently (GetNeverMutates, ExecutesNamedOperation, Non2xxRanNothing, ExecutedIs200, ProtocolErrorStatus, ContentTypeNegotiated, ImplConforms ...); TLC checks the full finite product of server configurations x requests, and every enumerated request is replayed over a real net/http connection against the real server (several header spellings), comparing chosen transport, status, Content-Type, body kind and the set of executed root fields with the prescription. Alarms only for departures from the property level; implementation-level differences inside the property are counted as drift.",
    note="Trusted: TLC, the hand-written ExecutableSchema of the harness, net/http. Accept q-values and the multipart 'request body too large' status are deliberately not decided (statement silent)."),
+ "C14": dict(level=EX, ref="DESIGN.md §5 C14, notes/C14.md",
+   technique="TLA+ definition of operation complexity and the limit gate (Complexity.tla) with theorems checked by TLC; every enumerated (tree, cost functions, limit) replayed against complexity.Calculate, the ComplexityLimit extension and the generated Complexity() switch",
+   text="Complexity.tla defines Cx over abstract schemas / selection trees / a family of custom cost functions (constant, child+c, child*k, negative, MAX-1, MAX, below-child) on symbolic machine integers, and TLC checks range, monotonicity, never-below-children, permutation/fragment invariance and the gate rule on all bounded inputs plus the safeAdd boundary grid. Each enumerated case is concretised and run through complexity.Calculate with a hand-written schema AND the generated Complexity() of probe servers built from /repo's templates (both layouts), and through a real server with FixedComplexityLimit / ComplexityLimit for limits Cx-1, Cx, Cx+1, 0, MaxInt: value, stats, rejection and an empty resolver log must match the specification.",
+   note="Trusted: TLC, the symbolic-integer concretiser (H = 2^62-1). @skip/@include, __type, non-query operations and non-POST transports are not varied."),
 }
 NOT_YET = {}
 def main():
